@@ -2,7 +2,7 @@
 //
 // One line = one complete history (self contained, so a crash costs one history only):
 //
-//   h <mode> <org> <alloc> <fa> <fc> <mc> | <op> | <op> | ...
+//   h <mode> <org> <alloc> <fa> <fc> <mc> <dg> | <op> | <op> | ...
 //     mode   dbg | rel            (rel: this binary was compiled with -DNDEBUG; validated against the build)
 //     org    rgb8 | rgb8p | gray16 | rgb565 | gray1 | elem
 //     alloc  se | sf00 | sf01 | sf10 | sf11 | pmr     (sfMS: stateful, M = propagate_on_container_move_assignment,
@@ -11,6 +11,8 @@
 //     fc     k >= 1: the k-th element construction performed by the library throws; 0 = none   (org elem only)
 //     mc     1 iff this binary was built with -DC10_ELEM_MASSIGN_COMPILES (the compile probe harness/C10/probe_massign.cpp
 //            succeeded: move assignment of image<non-pixel element, non-propagating allocator> compiles)
+//     dg     read by the model only: 1 iff image::allocate_ of the tree under test keeps the requested dimensions of an image that
+//            needs no storage (source-selected model variant)
 //   ops (s, s2 = slots 0..3; t = allocator tag 0..2; al = alignment; v = pixel value)
 //     dflt s t al            image(al, A(t))
 //     dims s t al w h v      image(w, h, al, A(t)); then fill_pixels(view, v)   (user level, makes the content defined)
@@ -395,7 +397,7 @@ template <typename O> struct History {
 static std::string handle(std::string const& line) {
     auto parts = std::vector<std::string>(); { size_t a = 0; while (true) { size_t b = line.find('|', a); parts.push_back(line.substr(a, b == std::string::npos ? b : b - a)); if (b == std::string::npos) break; a = b + 1; } }
     auto hd = hv::words(parts[0]);
-    if (hd.size() != 7 || hd[0] != "h") return "bad-op";
+    if (hd.size() != 8 || hd[0] != "h") return "bad-op";
 #ifdef C10_ELEM_MASSIGN_COMPILES
     if (hd[6] != "1") return "bad-op:mc";
 #else
